@@ -11,7 +11,7 @@
    final state.  "non-operator" below means: not a system client and
    GetPermission gave permissions without "op". *)
 From Coq Require Import ZArith List Bool.
-From Galene Require Import Model.Admission Proofs.Admission.
+From Galene Require Import Model.Admission Proofs.Admission Proofs.AdmissionTable.
 Import ListNotations.
 Open Scope Z_scope.
 
@@ -224,6 +224,91 @@ Proof.
   exact (autokick_add_step pre r post o p (exec_step _ _ _ _ _ _ Hin)).
 Qed.
 Print Assumptions C10_autokick_add.
+
+(* ---- Which object the rules are evaluated on.  The rules above hold for
+   every *Group object; a client names a group by its NAME.  [texec tinit l]
+   runs an arbitrary schedule [l] of file replacements (TWrite, None = the
+   description is missing / half-written / unparsable), Add, Delete and
+   critical sections of any object ever created under the name (TOn k s),
+   from the empty table.
+
+   The object registered under the name is never dropped or replaced while it
+   has members -- whatever happens to the description file. *)
+Theorem C10_registered_group_kept : forall l pre s r post k g,
+  In (pre, s, r, post) (texec tinit l) ->
+  t_cur pre = Some k -> nth_error (t_objs pre) k = Some g -> g_clients g <> [] ->
+  t_cur post = Some k /\ exists g', nth_error (t_objs post) k = Some g'.
+Proof.
+  intros l pre s r post k g Hin Hc Hn Hm.
+  pose proof (tstep_keeps_members pre s k g Hc Hn Hm) as H.
+  rewrite (texec_step _ _ _ _ _ _ Hin) in H. exact H.
+Qed.
+Print Assumptions C10_registered_group_kept.
+
+(* Every object of every reachable table, registered or not, is a schedule
+   of atomic steps from [created d]: all theorems above apply to it. *)
+Theorem C10_every_object_is_a_history : forall l k g,
+  nth_error (t_objs (trun tinit l)) k = Some g ->
+  exists d l', g = run (created d) l'.
+Proof. exact objects_are_histories. Qed.
+Print Assumptions C10_every_object_is_a_history.
+
+(* If every entry step runs on the object that is registered at that moment,
+   members exist only in the registered object, in every reachable table:
+   then "the members of the group named so" are the members of one object
+   and the rules hold for the name. *)
+Theorem C10_rules_hold_for_the_name : forall l,
+  admissions_on_current tinit l ->
+  forall j g, nth_error (t_objs (trun tinit l)) j = Some g ->
+              t_cur (trun tinit l) <> Some j -> g_clients g = [].
+Proof. intros l H. exact (proj2 (proj1 (members_only_in_registered l H))). Qed.
+Print Assumptions C10_rules_hold_for_the_name.
+
+(* The code does not guarantee that hypothesis: AddClient looks the object up
+   (Add) and enters it in two separate critical sections.  Schedule: U's Add
+   returns the (empty) object 0; the description becomes unreadable and
+   another Add drops object 0; U is accepted into the unregistered object 0;
+   the description is restored; V's Add creates object 1 and V is accepted
+   with the same id although max-clients is 1.  (Executed on the real code:
+   see the report of the `group` driver's builder; the same happens with
+   Delete(name) of an idle group in place of the failing Add.) *)
+Theorem C10_name_level_orphan_refuted :
+  let t := trun tinit orphan_schedule in
+  t_cur t = Some 1%nat /\
+  map (fun g => ids (g_clients g)) (t_objs t) = [[[117]]; [[117]]] /\
+  map (fun g => d_max_clients (g_desc g)) (t_objs t) = [1; 1] /\
+  map (fun x => match snd (fst x) with TOut o => Some (o_res o) | _ => None end)
+      (texec tinit orphan_schedule) =
+    [None; None; None; None; Some RAccepted; None; None; Some RAccepted].
+Proof. exact orphan_witness. Qed.
+Print Assumptions C10_name_level_orphan_refuted.
+
+(* Non-vacuity of the table theorems: a member joins, the description is
+   unreadable during two Adds (the object is kept), is restored, and the next
+   non-operator is refused by the SAME object (too many users); then the
+   member leaves, the description is unreadable again and the empty object is
+   dropped; after the restore a new object is created. *)
+Example C10_table_example :
+  let d := demo_desc 1 false false in
+  let l := [TWrite (Some d); TAdd; TOn 0 (SAddClient 0 (mkJoiner 1 [117] false false 2));
+            TWrite None; TAdd; TAdd;
+            TWrite (Some d); TAdd; TOn 0 (SAddClient 0 (mkJoiner 2 [118] false false 2));
+            TOn 0 (SDelClient [117] 1); TWrite None; TAdd;
+            TWrite (Some d); TAdd] in
+  admissions_on_current tinit l /\
+  map (fun x => snd (fst x)) (texec tinit l) =
+    [TWritten; TAddOk 0 []; TOut (mkOut RAccepted [EJoined 1 KJoin; EPush 1 true [117]]);
+     TWritten; TAddErr; TAddErr;
+     TWritten; TAddOk 0 [EJoined 1 KChange]; TOut (mkOut RTooMany []);
+     TOut (mkOut RDone [EJoined 1 KLeave]); TWritten; TAddErr;
+     TWritten; TAddOk 1 []] /\
+  t_cur (trun tinit l) = Some 1%nat.
+Proof.
+  cbv zeta. split; [|split].
+  - apply on_current_b_sound. vm_compute. reflexivity.
+  - vm_compute. reflexivity.
+  - vm_compute. reflexivity.
+Qed.
 
 (* Non-vacuity: one schedule on an autolock + autokick group with
    max-clients 2 in which the group starts locked, an operator joins and
